@@ -155,7 +155,9 @@ class Taint:
                     callees = t if isinstance(t, list) else self.prog.dispatch_targets(fi, n)
                     if isinstance(f, ast.Attribute) and not isinstance(t, list) and not callees:
                         # method call with a tainted argument: "sep".join(x), template.format(x), re.sub(p, r, x)
-                        self.ops.append(Op("call", f"{_norm(f)}(·)", f.attr if not isinstance(t, str) or "." not in t else t, n, fi,
+                        is_module_func = isinstance(t, str) and not t.startswith("?") and "." in t and isinstance(f.value, ast.Name) \
+                            and t.split(".")[0] == f.value.id
+                        self.ops.append(Op("call", f"{_norm(f)}(·)", t if is_module_func else f.attr, n, fi,
                                            tuple(_norm(a) for a in n.args)))
                     elif not callees:
                         self.ops.append(Op("call", f"{name}(·)", name, n, fi, tuple(_norm(a) for a in n.args)))
